@@ -407,6 +407,14 @@ std::vector<std::vector<uint8_t>> sources()
 		while (s.size() < 140000) s.push_back(uint8_t(s.size() * 13 + 5));
 		v.push_back(s);
 	}
+	// a long source without a NUL among its first 1000 bytes: the NUL-terminated string read at positions 0..2 is about a thousand
+	// characters long (a reader that gathers characters in blocks is right for short strings only: seeded change S12r)
+	{
+		std::vector<uint8_t> s;
+		while (s.size() < 140000) s.push_back(uint8_t(1 + (s.size() * 7) % 255));
+		s[1000] = 0; s[66000] = 0;
+		v.push_back(s);
+	}
 	return v;
 }
 const std::size_t kProbeOnlyLength = 100000;
